@@ -146,11 +146,38 @@ Proof.
   cbn [rev]. rewrite <- app_assoc. cbn [app]. rewrite S1. apply IH. lia.
 Qed.
 
-Lemma strip_comments_is_reference s : strip_comments s = reference_strip s.
+(* ---------- the C string inside a String ---------- *)
+Lemma cstr_length s : (length (cstr s) <= length s)%nat.
+Proof. induction s as [|c t IH]; [cbn; lia|]. cbn [cstr]. destruct (c =? 0); cbn [length]; lia. Qed.
+
+Lemma cstr_nulfree s : ~ In 0 s -> cstr s = s.
 Proof.
-  unfold strip_comments, reference_strip. rewrite strip_main_ref by lia.
+  induction s as [|c t IH]; intros H; [reflexivity|]. cbn [cstr].
+  destruct (c =? 0) eqn:E; [exfalso; apply H; left; lia|]. f_equal. apply IH. intros X. apply H. right. exact X.
+Qed.
+
+Lemma cstr_no_nul s : ~ In 0 (cstr s).
+Proof.
+  induction s as [|c t IH]; [intros []|]. cbn [cstr]. destruct (c =? 0) eqn:E; [intros []|].
+  intros [X|X]; [lia|exact (IH X)].
+Qed.
+
+(* the bytes before the first 0 byte: s = cstr s, or s = cstr s ++ 0 :: rest *)
+Lemma cstr_prefix s : s = cstr s \/ exists rest, s = cstr s ++ 0 :: rest.
+Proof.
+  induction s as [|c t IH]; [left; reflexivity|]. cbn [cstr]. destruct (c =? 0) eqn:E.
+  - right. exists t. assert (c = 0) by lia. subst c. reflexivity.
+  - destruct IH as [IH|[rest IH]]; [left; cbn [app]; congruence|right; exists rest; cbn [app]; congruence].
+Qed.
+
+Lemma strip_comments_is_reference s : strip_comments s = reference_strip (cstr s).
+Proof.
+  unfold strip_comments, reference_strip. rewrite frev_eq, strip_main_ref by (pose proof (cstr_length s); lia).
   rewrite app_nil_r. apply rev_involutive.
 Qed.
+
+Lemma strip_comments_is_reference_nulfree s : ~ In 0 s -> strip_comments s = reference_strip s.
+Proof. intros H. rewrite strip_comments_is_reference, cstr_nulfree by exact H. reflexivity. Qed.
 
 (* ---------- what the reference keeps ---------- *)
 (* every line break byte of the input is kept, in order (whatever the mode) *)
@@ -187,9 +214,9 @@ Proof.
       * destruct (brk c) eqn:B; [apply KEEP|now apply DROP].
 Qed.
 
-Lemma strip_keeps_line_breaks s : filter brk (strip_comments s) = filter brk s.
+Lemma strip_keeps_line_breaks s : filter brk (strip_comments s) = filter brk (cstr s).
 Proof.
-  rewrite strip_comments_is_reference. apply (ref_keeps_breaks (length s)). lia.
+  rewrite strip_comments_is_reference. apply (ref_keeps_breaks (length (cstr s))). lia.
 Qed.
 
 (* a text without any slash has no comment: nothing is removed *)
@@ -207,7 +234,131 @@ Proof.
   - f_equal. apply IH; auto; discriminate.
 Qed.
 
-Lemma strip_no_slash_identity s : ~ In 47 s -> strip_comments s = s.
+Lemma in_cstr c s : In c (cstr s) -> In c s.
 Proof.
-  intros H. rewrite strip_comments_is_reference. apply ref_no_slash; [exact H|discriminate|discriminate].
+  induction s as [|d t IH]; [intros []|]. cbn [cstr]. destruct (d =? 0); [intros []|].
+  intros [X|X]; [left; exact X|right; exact (IH X)].
+Qed.
+
+Lemma strip_no_slash_identity s : ~ In 47 s -> strip_comments s = cstr s.
+Proof.
+  intros H. rewrite strip_comments_is_reference. apply ref_no_slash; [|discriminate|discriminate].
+  intros X. apply H. apply in_cstr. exact X.
+Qed.
+
+(* ---------- memory safety of the machine as written: every read and write is inside its buffer ---------- *)
+(* w is the number of bytes written, and what is written plus what is still ahead fits the destination *)
+Definition fits (cap w : Z) (out r : list Z) : Prop :=
+  w = Z.of_nat (length out) /\ w + Z.of_nat (length r) <= cap.
+
+Lemma strip_string_chk_ok cap n : forall r w out, (length r <= n)%nat -> fits cap w out r ->
+  strip_string_chk cap w r out =
+    Ok (fst (strip_string r out), Z.of_nat (length (snd (strip_string r out))), snd (strip_string r out)) /\
+  (length (snd (strip_string r out)) + length (fst (strip_string r out)) <= length out + length r)%nat.
+Proof.
+  unfold fits. induction n as [|n IH]; intros r w out Hn [Hw Hc].
+  - destruct r; [|cbn [length] in Hn; lia]. cbn. subst w. split; [reflexivity|lia].
+  - destruct r as [|c t]; [cbn; subst w; split; [reflexivity|lia]|].
+    cbn [length] in Hn, Hc. cbn [strip_string_chk strip_string]. unfold rd0, rd1. cbn [peek].
+    destruct (c =? 92) eqn:E1.
+    + destruct t as [|e t'].
+      * unfold wr. destruct (w <=? cap) eqn:W; [|lia].
+        cbn [strip_string_chk strip_string peek fst snd length]. unfold rd0. subst w.
+        split; [f_equal; f_equal; f_equal; lia|lia].
+      * unfold wr. cbn [length] in *.
+        destruct (w <=? cap) eqn:W; [|lia].
+        destruct (w + 1 <=? cap) eqn:W2; [|lia].
+        destruct n as [|n']; [lia|].
+        assert (IH' : forall r w out, (length r <= n')%nat -> w = Z.of_nat (length out) /\ w + Z.of_nat (length r) <= cap ->
+          strip_string_chk cap w r out =
+            Ok (fst (strip_string r out), Z.of_nat (length (snd (strip_string r out))), snd (strip_string r out)) /\
+          (length (snd (strip_string r out)) + length (fst (strip_string r out)) <= length out + length r)%nat).
+        { intros. apply IH; [lia|assumption]. }
+        destruct (IH' t' (w + 1 + 1) (e :: c :: out) ltac:(lia) ltac:(cbn [length]; lia)) as [I1 I2].
+        split; [exact I1|cbn [length] in *; lia].
+    + destruct (c =? 34) eqn:E2.
+      * unfold wr. destruct (w <=? cap) eqn:W; [|lia]. cbn [fst snd length]. subst w.
+        split; [f_equal; f_equal; f_equal; lia|lia].
+      * unfold wr. destruct (w <=? cap) eqn:W; [|lia].
+        destruct (IH t (w + 1) (c :: out) ltac:(lia) ltac:(cbn [length]; lia)) as [I1 I2].
+        split; [exact I1|cbn [length] in *; lia].
+Qed.
+
+Lemma strip_block_chk_ok cap fb : forall r w out, (length r < fb)%nat -> fits cap w out r ->
+  strip_block_chk cap fb w r out =
+    Ok (fst (strip_block fb r out), Z.of_nat (length (snd (strip_block fb r out))), snd (strip_block fb r out)) /\
+  match strip_block fb r out with
+  | (Some r', out') => (length out' + length r' <= length out + length r)%nat /\ (length r' <= length r)%nat
+  | (None, out') => (length out' <= length out + length r)%nat
+  end.
+Proof.
+  unfold fits. induction fb as [|f IH]; intros r w out Hf [Hw Hc]; [lia|].
+  cbn [strip_block_chk strip_block]. pose proof (block_scan r) as S.
+  destruct (find_one_of [13; 10; 42] r) as [e|]; [|cbn [fst snd]; subst w; split; [reflexivity|lia]].
+  destruct S as (_ & S2 & c & t & -> & Hc'). cbn [length] in S2.
+  unfold rd0, rd1. cbn [peek].
+  destruct (c =? 42) eqn:E2.
+  - assert (c = 42) by lia. subst c. cbn [Z.eqb Pos.eqb andb].
+    destruct (peek t =? 47) eqn:E3.
+    + cbn [fst snd]. subst w. split; [reflexivity|]. destruct t as [|d t']; [cbn in E3; lia|]. cbn [tl length] in *. lia.
+    + destruct (IH t w out ltac:(lia) ltac:(lia)) as [I1 I2]. split; [exact I1|].
+      destruct (strip_block f t out) as [[r'|] out']; lia.
+  - cbn [andb].
+    unfold wr. destruct (w <=? cap) eqn:W; [|lia].
+    destruct (IH t (w + 1) (c :: out) ltac:(lia) ltac:(cbn [length]; lia)) as [I1 I2]. split; [exact I1|].
+    destruct (strip_block f t (c :: out)) as [[r'|] out']; cbn [length] in *; lia.
+Qed.
+
+Lemma strip_main_chk_ok cap f : forall r w out, (length r < f)%nat -> fits cap w out r ->
+  strip_main_chk cap f w r out = Ok (Z.of_nat (length (strip_main f r out)), strip_main f r out) /\
+  (length (strip_main f r out) <= length out + length r)%nat.
+Proof.
+  unfold fits. induction f as [|f IH]; intros r w out Hf [Hw Hc]; [lia|].
+  cbn [strip_main_chk strip_main]. unfold rd0 at 1.
+  destruct r as [|c t]; [subst w; split; [reflexivity|lia]|]. cbn [length] in Hf, Hc. cbn [peek].
+  destruct (c =? 47) eqn:E0.
+  - assert (c = 47) by lia. subst c. cbn [Z.eqb Pos.eqb andb].
+    unfold rd1.
+    destruct (peek t =? 47) eqn:E1.
+    + destruct t as [|d t']; [cbn in E1; lia|]. cbn [peek] in E1. assert (d = 47) by lia. subst d.
+      change (find_one_of [13; 10] (47 :: 47 :: t')) with (find_one_of [13; 10] t').
+      pose proof (line_comment_scan t') as S.
+      destruct (find_one_of [13; 10] t') as [e|]; [|subst w; split; [reflexivity|lia]].
+      destruct S as [_ S2]. cbn [length] in *.
+      destruct (IH e w out ltac:(lia) ltac:(lia)) as [I1 I2]. split; [exact I1|lia].
+    + destruct (peek t =? 42) eqn:E2.
+      * destruct t as [|d t2]; [cbn in E2; lia|]. cbn [tl length] in *.
+        destruct (strip_block_chk_ok cap (S (S (length t2))) t2 w out ltac:(lia) ltac:(unfold fits; lia)) as [B1 B2].
+        rewrite B1. cbn [bind].
+        destruct (strip_block (S (S (length t2))) t2 out) as [[r'|] out']; cbn [fst snd]; [|split; [reflexivity|lia]].
+        destruct B2 as [B2 B3].
+        destruct (IH r' (Z.of_nat (length out')) out' ltac:(lia) ltac:(lia)) as [I1 I2]. split; [exact I1|lia].
+      * cbn [negb]. unfold wr. destruct (w <=? cap) eqn:W; [|lia].
+        destruct (IH t (w + 1) (47 :: out) ltac:(lia) ltac:(cbn [length]; lia)) as [I1 I2].
+        split; [exact I1|cbn [length] in *; lia].
+  - cbn [andb]. destruct (negb (c =? 34)) eqn:E3.
+    + unfold wr. destruct (w <=? cap) eqn:W; [|lia].
+      destruct (IH t (w + 1) (c :: out) ltac:(lia) ltac:(cbn [length]; lia)) as [I1 I2].
+      split; [exact I1|cbn [length] in *; lia].
+    + unfold wr. destruct (w <=? cap) eqn:W; [|lia].
+      destruct (strip_string_chk_ok cap (length t) t (w + 1) (c :: out) ltac:(lia) ltac:(unfold fits; cbn [length]; lia)) as [S1 S2].
+      pose proof (strip_string_ref (length t) t (c :: out) ltac:(lia)) as [_ S3].
+      rewrite S1. cbn [bind]. destruct (strip_string t (c :: out)) as [r' out']. cbn [fst snd length] in *.
+      destruct (IH r' (Z.of_nat (length out')) out' ltac:(lia) ltac:(lia)) as [I1 I2]. split; [exact I1|lia].
+Qed.
+
+Lemma strip_comments_length s : (length (strip_comments s) <= length (cstr s))%nat.
+Proof.
+  unfold strip_comments. rewrite frev_eq, rev_length.
+  pose proof (cstr_length s).
+  destruct (strip_main_chk_ok (Z.of_nat (length s)) (S (length s)) (cstr s) 0 [] ltac:(lia) ltac:(unfold fits; cbn [length]; lia)) as [_ L].
+  cbn [length] in L. lia.
+Qed.
+
+Lemma strip_comments_chk_ok s : strip_comments_chk s = Ok (strip_comments s).
+Proof.
+  unfold strip_comments_chk, strip_comments. pose proof (cstr_length s).
+  destruct (strip_main_chk_ok (Z.of_nat (length s)) (S (length s)) (cstr s) 0 [] ltac:(lia) ltac:(unfold fits; cbn [length]; lia)) as [E L].
+  rewrite E. cbn [bind]. unfold wr. cbn [length] in L.
+  destruct (Z.of_nat (length (strip_main (S (length s)) (cstr s) [])) <=? Z.of_nat (length s)) eqn:W; [reflexivity|lia].
 Qed.
